@@ -88,6 +88,14 @@ func (fc *FnCtx) call(st *State, e *ast.CallExpr) []Term {
 	}
 	var args []Term
 	var ptrArgs []Term
+	// &local handed to a decoder that does not keep the pointer (json/xml decoding, Scan): the local is
+	// overwritten by this call only, not by every later call
+	nonRet := fn != nil && nonRetainingCallee(fn)
+	var savedDecoded []types.Object
+	if nonRet {
+		fc.noRetain++
+		savedDecoded, fc.decoded = fc.decoded, nil
+	}
 	for i, a := range e.Args {
 		var pt types.Type
 		if sig != nil {
@@ -121,6 +129,11 @@ func (fc *FnCtx) call(st *State, e *ast.CallExpr) []Term {
 			}
 		}
 	}
+	var decoded []types.Object
+	if nonRet {
+		fc.noRetain--
+		decoded, fc.decoded = fc.decoded, savedDecoded
+	}
 	savedPtrArgs := fc.ptrArgs
 	fc.ptrArgs = ptrArgs
 	defer func() { fc.ptrArgs = savedPtrArgs }()
@@ -153,6 +166,11 @@ func (fc *FnCtx) call(st *State, e *ast.CallExpr) []Term {
 	}
 	for _, r := range results {
 		fc.ownResult(st, r)
+	}
+	for _, obj := range decoded {
+		if _, ok := st.vars[obj]; ok && !fc.escaped[obj] {
+			st.vars[obj] = fc.fresh(obj.Name(), obj.Type())
+		}
 	}
 	savedAnchorArgs = fc.anchorArgs
 	fc.anchorArgs = args
@@ -746,6 +764,26 @@ func (fc *FnCtx) modelCall(st *State, e *ast.CallExpr, fn *types.Func, full stri
 		}
 		fc.assumeGlobal(b("(=> (= (strlen %s) 0) %s)", args[1].S, t.S))
 		return []Term{t}, true
+	case "strings.Contains":
+		fc.declareFun("str_contains", []string{SStr, SStr}, SBool)
+		t := b("(str_contains %s %s)", args[0].S, args[1].S)
+		fc.assumeGlobal(b("(=> %s (>= (strlen %s) (strlen %s)))", t.S, args[0].S, args[1].S))
+		return []Term{t}, true
+	case "strings.Split", "strings.SplitN":
+		// at least one piece; at least two when the separator occurs (and the limit allows); at most n pieces
+		fc.declareFun("str_contains", []string{SStr, SStr}, SBool)
+		rt := fn.Type().(*types.Signature).Results().At(0).Type()
+		r := fc.fresh("split", rt)
+		fc.assumeGlobal(b("(>= (slen %s) 1)", r.S))
+		limitOK := "true"
+		if full == "strings.SplitN" {
+			limitOK = fmt.Sprintf("(or (< %s 0) (>= %s 2))", args[2].S, args[2].S)
+			fc.assumeGlobal(b("(=> (> %s 0) (<= (slen %s) %s))", args[2].S, r.S, args[2].S))
+		}
+		fc.assumeGlobal(b("(=> (and (str_contains %s %s) (>= (strlen %s) 1) %s) (>= (slen %s) 2))", args[0].S, args[1].S, args[1].S, limitOK, r.S))
+		fc.assumeGlobal(b("(=> (and (not (str_contains %s %s)) (>= (strlen %s) 1)) (= (slen %s) 1))", args[0].S, args[1].S, args[1].S, r.S))
+		fc.assumeGlobal(b("(not (%s %s))", fc.sliceNilFn(r.Sort), r.S))
+		return []Term{r}, true
 	case "bytes.Equal":
 		if isSliceSort(args[0].Sort) {
 			n := "bytes_equal"
@@ -816,4 +854,21 @@ func (fc *FnCtx) modelCall(st *State, e *ast.CallExpr, fn *types.Func, full stri
 		return []Term{{S: fmt.Sprintf("(- %s %s)", args[0].S, nv.S), Sort: SInt, T: fn.Type().(*types.Signature).Results().At(0).Type()}}, true
 	}
 	return nil, false
+}
+
+// nonRetainingCallee: library decoders that write through the pointers they are given and do not keep them
+// (trusted; listed in the evidence as an assumption).
+func nonRetainingCallee(fn *types.Func) bool {
+	if fn.Pkg() == nil || inModule(fn.Pkg()) {
+		return false
+	}
+	switch fn.Pkg().Path() {
+	case "encoding/json", "encoding/xml", "encoding/gob", "encoding/binary", "encoding/base64", "encoding/hex":
+		return true
+	case "fmt":
+		return strings.HasPrefix(fn.Name(), "Sscan") || strings.HasPrefix(fn.Name(), "Fscan")
+	case "database/sql":
+		return fn.Name() == "Scan"
+	}
+	return false
 }
